@@ -39,6 +39,15 @@ def chk_sf(inp):
             want = 0.0 if j == 0 else numpy.mean((ph[:R - j * st] - ph[j * st:]) ** 2)
             if not abs(sf[j] - want) <= 1e-9 * max(1, abs(want)):
                 return bad("sf[%d] (%s phase %dx%d, step %d) is not the mean squared difference at lag %d" % (j, kind, R, C, st, j * st), float(sf[j]), float(want))
+        if kind == "random" and step is not None:
+            # integer-typed phase (quantised screens): same numbers as the same phase in floating point
+            q = numpy.round(ph * 7).astype("int64")
+            for dt in ("int64", "int32", "int16"):
+                s_int = aotools.calculate_structure_function(q.astype(dt), nbOfPoint=n, step=st)
+                s_flt = aotools.calculate_structure_function(q.astype(float), nbOfPoint=n, step=st)
+                if len(s_int) != len(s_flt) or not numpy.allclose(numpy.asarray(s_int, dtype=float), s_flt, rtol=1e-12, atol=1e-12):
+                    return bad("structure function of an integer-typed (%s) phase differs from that of the same phase as float (%dx%d, step %d)" % (dt, R, C, st),
+                               numpy.asarray(s_int, dtype=float).tolist()[:4], numpy.asarray(s_flt).tolist()[:4])
         if kind == "ramp":
             for j in range(len(sf)):
                 if abs(sf[j] - (0.7 * j * st) ** 2) > 1e-9 * max(1, (0.7 * j * st) ** 2):
@@ -66,6 +75,14 @@ def chk_tps(inp):
         return bad("mean spectrum is not the mean over sub-apertures of |DFT along frames|^2 (n_frames=%d)" % F, numpy.asarray(m).tolist()[:1], P.mean(-1).tolist()[:1])
     if not numpy.allclose(e, P.std(-1) / numpy.sqrt(NC), rtol=1e-9, atol=1e-9):
         return bad("error is not std over sub-apertures / sqrt(n)", None, None)
+    # sub-apertures that are dark (exactly zero in every frame) are sub-apertures too: the average is over ALL of them
+    xd = x.copy(); xd[..., 0] = 0
+    if NC > 2:
+        xd[0, :, -1] = 0
+    md, ed = aotools.calc_slope_temporalps(xd.copy())
+    Pd = numpy.abs(numpy.einsum("kf,bfc->bkc", W, xd)) ** 2
+    if md.shape != (B, F // 2) or not numpy.allclose(md, Pd.mean(-1), rtol=1e-9, atol=1e-9) or not numpy.allclose(ed, Pd.std(-1) / numpy.sqrt(NC), rtol=1e-9, atol=1e-9):
+        return bad("with dark sub-apertures the mean spectrum / its error are not the mean / std over ALL sub-apertures (n_frames=%d, %d sub-apertures)" % (F, NC), numpy.asarray(md).tolist()[:1], Pd.mean(-1).tolist()[:1])
     m2, _ = aotools.calc_slope_temporalps(2 * x)
     if not numpy.allclose(m2, 4 * m, rtol=1e-9):
         return bad("power spectrum is not quadratic in amplitude", float((m2 / m).mean()), 4.0)
